@@ -21,7 +21,7 @@ def req(rng):
     for v in (rng.choice(XFF) or []):
         lines.insert(rng.below(len(lines) + 1), rng.choice([b"X-Forwarded-For", b"x-forwarded-for"]) + b": " + v)
     if rng.chance(1, 3):
-        lines.append(b"X-Real-IP: 9.9.9.9")
+        lines.append(rng.choice([b"X-Real-IP", b"x-real-ip", b"X-Real-Ip"]) + b": 9.9.9.9")
     for _ in range(rng.range(0, 3)):
         lines.insert(rng.below(len(lines) + 1), rng.choice([b"Cookie", b"cookie", b"Accept", b"X-A"]) + b": " + rng.choice([b"a=1", b"b=2", b"*/*", b"v w"]))
     body = rng.bytes(rng.choice([0, 0, 1, 5, 12]))
